@@ -7,6 +7,7 @@ C16.WHO  every class-state write in the package is one of the enumerated sites, 
 C16.SET  registries: four scalar helpers on attr name, four element helpers per family on the
          singular name (sibling agreement), three top-level helpers; element family added iff the
          attribute is a collection; __spec_class_init__/repr/eq__ always registered
+C16.INH  inherit_annotations = not (attrs or attrs_typed) or attrs_skip-was-given: exhaustive decision table
 C16.PRIV private names are never managed (annotation scan filter; constructor arguments rejected)
 C16.SING singular fallback <attr>_item; collision loop consults all attributes (inherited included)
 """
@@ -217,6 +218,60 @@ def check(ctx, rep: Report):
     rep.oblige("C16.SET", "get_methods_for_spec_class", ok)
     if not ok:
         rep.violate(Violation("C16.SET", "C16.SET|get_methods_for_spec_class", "the generated constructor/repr/equality are no longer always reachable under their __spec_class_* names (or the top-level helpers are missing)", f"{gs.module.relpath}:{gs.node.lineno}", "spec_class.get_methods_for_spec_class"))
+
+    # core methods registered under several names must be built functions, not lazy descriptors
+    bad = []
+    assigns = {n.targets[0].id: n.value for n in walk_own(gs.node)
+               if isinstance(n, ast.Assign) and len(n.targets) == 1 and isinstance(n.targets[0], ast.Name)}
+    ndual = 0
+    for d in [n for n in walk_own(gs.node) if isinstance(n, ast.Dict)]:
+        vals = [ast.unparse(v) for v in d.values if v is not None]
+        for k, v in zip(d.keys, d.values):
+            if k is None or not isinstance(k, ast.Constant) or not isinstance(v, ast.Name) or vals.count(v.id) < 2:
+                continue
+            ndual += 1
+            src_expr = assigns.get(v.id)
+            if src_expr is not None and not (isinstance(src_expr, ast.Attribute) and src_expr.attr == "method"):
+                bad.append(f"`{k.value}` is registered as `{ast.unparse(src_expr)}` (a descriptor that dissolves under a single name) although the same object is registered under another name too")
+    if ndual < 6:
+        raise AnalysisError(f"C16.SET: {ndual} dual registrations found in get_methods_for_spec_class (floor 6)")
+    rep.oblige("C16.SET", "dual registrations are built methods", not bad, "; ".join(bad[:2]))
+    for b in bad[:2]:
+        rep.violate(Violation("C16.SET", f"C16.SET|dual|{b[:40]}", f"get_methods_for_spec_class: {b}", f"{gs.module.relpath}:{gs.node.lineno}", "spec_class.get_methods_for_spec_class"))
+
+    # ---- INH: explicit attrs switch annotation inheritance off unless attrs_skip was given (identity, not truthiness)
+    rep.rules["C16.INH"] = "decision table of spec_class.__init__'s inherit_annotations over {attrs, attrs_typed, attrs_skip given, attrs_skip truthy}"
+    init = ctx.p.find_function("spec_class.__init__")
+    names = [a.arg for a in init.node.args.args[1:]] + [a.arg for a in init.node.args.kwonlyargs]
+
+    def conf_inh(cfg):
+        cfg.record_decisions = True
+        cfg.user_may_raise = False
+        cfg.loop_unroll = 1
+    it, outs = run_function(ctx.p, ctx.H, init, [Sym(("self",), {FRESH})], {n: Sym((n,), {ARG}) for n in names}, configure=conf_inh)
+    rep.functions |= set(it.functions_entered)
+    rows = []
+    for o in outs:
+        if o.kind != "ok":
+            continue
+        ws = [e[5] for e in o.state.trace if e[0] == "W" and e[2] == "self" and e[4] == "inherit_annotations"]
+        if not ws:
+            continue
+        atoms = {}
+        for k, v in o.state.decisions:
+            if k[0] == "truthy" and k[1] in (("attrs",), ("attrs_typed",), ("attrs_skip",)):
+                atoms[{"attrs": "attrs", "attrs_typed": "attrs_typed", "attrs_skip": "skip_truthy"}[k[1][0]]] = v
+            elif k[0] == "is" and k[1] == ("attrs_skip",) and k[2] == ("S", "MISSING"):
+                atoms["skip_given"] = not v
+        rows.append((atoms, ws[-1], None))
+    if len(rows) < 4:
+        raise AnalysisError(f"C16.INH: {len(rows)} paths set inherit_annotations (floor 4)")
+    rep.evaluations += len(rows)
+    n, mism = dtable.compare(rows, lambda a: str((not (a["attrs"] or a["attrs_typed"])) or a["skip_given"]),
+                             ["attrs", "attrs_typed", "skip_given", "skip_truthy"], constraint=lambda a: a["skip_given"] or not a["skip_truthy"])
+    rep.oblige("C16.INH", "spec_class.__init__", not mism, f"{n} assignments")
+    for msg in dtable.summarize(mism):
+        rep.violate(Violation("C16.INH", f"C16.INH|{msg[:60]}", f"spec_class.__init__: inherit_annotations departs from `not (attrs or attrs_typed) or attrs_skip given`: {msg} (an empty attrs_skip must still mean 'add to the annotated attributes')", f"{init.module.relpath}:{init.node.lineno}", "spec_class.__init__"))
 
     # ---- PRIV
     rep.rules["C16.PRIV"] = "private names filtered at both sources"
